@@ -277,8 +277,12 @@ def evalxc_extremes(case, ctx):
         with np.errstate(all="ignore"):
             exc2, (vxc2, vn2, vs2) = ni.eval_xc_cider(case["slxc"], rho2.copy(), None if nldf is None else (nldf[0] if nspin == 1 else nldf).copy(),
                                                      None if sdmx is None else (sdmx[0] if nspin == 1 else sdmx).copy(), deriv=1)[:2]
-        ctx.equal_bits(np.asarray(exc2)[keep], np.asarray(exc)[keep], ("cut_points_influence_others", "exc") + tag)
-        ctx.equal_bits(np.asarray(vxc2)[..., keep], np.asarray(vxc)[..., keep], ("cut_points_influence_others", "vxc") + tag)
+        # 1e-13 of the largest kept value, not bit-equality: an implementation may compact or reorder the kept points
+        ek, vk = np.asarray(exc)[keep], np.asarray(vxc)[..., keep]
+        ctx.close(np.asarray(exc2)[keep], ek, ("cut_points_influence_others", "exc") + tag, rtol=1e-13,
+                  scale=float(np.max(np.abs(ek))) + 1e-300)
+        ctx.close(np.asarray(vxc2)[..., keep], vk, ("cut_points_influence_others", "vxc") + tag, rtol=1e-13,
+                  scale=float(np.max(np.abs(vk))) + 1e-300)
 
 
 # ------------------------------------------------------------------------------------------------
